@@ -774,7 +774,10 @@ pub fn run_c16(tier: Tier) -> i32 {
                             }
                             Job::Boundary(codec, regime) => boundary_server_cases(st, codec, regime),
                             Job::Client(codec, regime, mutate) => client_cases(st, codec, regime, now, mutate, all_values),
-                            Job::Flood(codec) => crate::c16_hist::flood_cases(st, codec, flood_n),
+                            Job::Flood(codec) => {
+                                crate::c16_hist::duplicate_deadline_cases(st, codec);
+                                crate::c16_hist::flood_cases(st, codec, flood_n)
+                            }
                             Job::ClientFlood(codec) => crate::c16_hist::client_flood_cases(st, codec, flood_n),
                             Job::ServerAge(codec) => crate::c16_hist::server_age_cases(st, codec).await,
                             Job::Timed(codec) => crate::c16_hist::timed_history_cases(st, codec, if tier == Tier::Thorough { 6 } else { 5 }).await,
